@@ -446,10 +446,20 @@ def check_align(r) -> list[Fail]:
         idx_sets = [alt, idx0] if r.get("alt_first") else [idx0, alt]
     func = kabsch_centering if r.get("func") == "centering" else kabsch
     vec = None if r["vec"] is None else list(r["vec"])
+    idx1 = None
+    if r.get("two_sites") and n >= 2 * k and (r.get("func") != "centering" or r.get("two_sites") == "any_func"):
+        # the core occurs at a SECOND site over other atoms (as get_substr_indices yields for a molecule with two such groups):
+        # the first site is the noisy embedding, the second an exact copy placed elsewhere; whichever site is chosen, the rmsd
+        # that is returned must be the one the final coordinates show
+        rest_ = [i for i in range(n) if i not in idx0][:k]
+        idx1 = rest_
+        idx_sets = idx_sets + [idx1] if not r.get("alt_first") else [idx1] + idx_sets
 
     def make_coords(pose_seed):
         c = np.array(big["coords"], dtype=float).reshape((n, 3)).copy()
         c[idx0] = np.array(ref_mol.coords) + rng0.normal(scale=r["noise"], size=(k, 3))
+        if idx1 is not None:
+            c[idx1] = np.array(ref_mol.coords) @ _proper_R(r["rseed"] + 5) + np.array([3.5, -2.0, 1.5])
         Rp = _proper_R(pose_seed)
         return c @ Rp + np.random.default_rng(pose_seed).normal(size=3) * 5
 
@@ -491,7 +501,7 @@ def check_align(r) -> list[Fail]:
 
 
 def classify_align(r):
-    return len(r["ref"]["atoms"]) >= 4, ["kind=" + r["kind"], ("two_index_sets_best_" + ("second" if r.get("alt_first") else "first")) if r["two_sets"] else "one_index_set", "vec" if r["vec"] is not None else "no_vec", "func=" + r.get("func", "plain")]
+    return len(r["ref"]["atoms"]) >= 4, ["kind=" + r["kind"], ("two_index_sets_best_" + ("second" if r.get("alt_first") else "first")) if r["two_sets"] else "one_index_set", "vec" if r["vec"] is not None else "no_vec", "func=" + r.get("func", "plain")] + (["second_site_over_other_atoms"] if r.get("two_sites") and len(r["mol"]["atoms"]) >= 2 * len(r["ref"]["atoms"]) and r.get("func") != "centering" else [])
 
 
 def strat_align(tier):
@@ -501,7 +511,7 @@ def strat_align(tier):
         "kind": st.sampled_from(["molecule", "ensemble", "ensemble_diffpose"]), "ref": ref, "mol": big,
         "embed": st.lists(st.integers(0, 40), min_size=7, max_size=7, unique=True), "two_sets": st.booleans(),
         "vec": st.one_of(st.none(), st.lists(st.floats(-5, 5), min_size=3, max_size=3)),
-        "alt_first": st.booleans(), "func": st.sampled_from(["plain", "centering"]),
+        "alt_first": st.booleans(), "func": st.sampled_from(["plain", "centering"]), "two_sites": st.booleans(),
         "noise": st.sampled_from([0.0, 0.01, 0.2]), "rseed": st.integers(0, 10**6), "pose1": st.integers(0, 10**6), "pose2": st.integers(0, 10**6),
     })
 
